@@ -186,7 +186,8 @@ def check_case(case, rec):
     for i, (h, kw) in enumerate(calls):
         rec.case((key0, h, repr(sorted(kw.items()))), nontrivial)
         rec.trans()
-        one = {"kind": kind, "toks": toks, "groups": groups, "calls": [[h, kw]]}
+        # helpers evaluated earlier in the same call are part of the case (results may depend on them)
+        one = {"kind": kind, "toks": toks, "groups": groups, "calls": [[hh, kk] for hh, kk in calls[:i + 1]]}
         res = out if out is not None else outs[i]
         cname = f"c{i}" if out is not None else "c0"
         if isinstance(res, Exception):
